@@ -38,7 +38,10 @@ enum At {
 struct State {
     turn: Option<usize>,
     at: Vec<At>,
-    holder: Option<usize>,
+    /// mutex address -> thread holding it (several mutexes may be routed through the seam)
+    holders: std::collections::HashMap<usize, usize>,
+    /// mutex each thread is about to request
+    wants: Vec<Option<usize>>,
     /// sequence of (thread, point) reached, for replay-divergence checks and section orders
     trace: Vec<(usize, At)>,
     acquisitions: Vec<usize>,
@@ -75,24 +78,28 @@ impl Ctl {
     }
 }
 
-fn observer(ev: LockEvent, _addr: usize) {
+fn observer(ev: LockEvent, addr: usize) {
     let Some(tid) = TID.with(Cell::get) else { return };
     let Some(ctl) = current() else { return };
     match ev {
-        LockEvent::BeforeLock => ctl.reach(tid, At::BeforeLock),
+        LockEvent::BeforeLock => {
+            ctl.m.lock().unwrap_or_else(|e| e.into_inner()).wants[tid] = Some(addr);
+            ctl.reach(tid, At::BeforeLock)
+        }
         LockEvent::BeforeTryLock => ctl.reach(tid, At::BeforeTry),
         LockEvent::Acquired => {
             {
                 let mut st = ctl.m.lock().unwrap_or_else(|e| e.into_inner());
-                st.holder = Some(tid);
+                st.holders.insert(addr, tid);
+                st.wants[tid] = None;
                 st.acquisitions.push(tid);
             }
             ctl.reach(tid, At::Holding);
         }
         LockEvent::Released => {
             let mut st = ctl.m.lock().unwrap_or_else(|e| e.into_inner());
-            if st.holder == Some(tid) {
-                st.holder = None;
+            if st.holders.get(&addr) == Some(&tid) {
+                st.holders.remove(&addr);
             }
         }
     }
@@ -141,6 +148,9 @@ pub fn scenarios(thorough: bool) -> Vec<Scenario> {
         Scenario { name: "S4 keygen | refresh | encaps", threads: vec![vec![Keygen("A::x")], vec![Refresh], vec![Encaps("H::hi")]] },
         Scenario { name: "S5 rekey;encaps | recaps | header;roundtrip", threads: vec![vec![Rekey("A::y"), Encaps("A::x")], vec![Recaps], vec![HeaderRoundTrip("A::x")]] },
     ];
+    // three dimensions, four-target policies, two different audiences
+    v.push(Scenario { name: "S7 encaps(PX);encaps(PX) | encaps(PY) | keygen", threads: vec![vec![Encaps(PX), Encaps(PX)], vec![Encaps(PY)], vec![Keygen("A::x")]] });
+    v.push(Scenario { name: "S8 encrypt(PX) | keygen | header(PY)", threads: vec![vec![Encrypt(PX)], vec![Keygen("A::y")], vec![Header(PY)]] });
     if thorough {
         v.push(Scenario { name: "S6 3 threads x 2 calls", threads: vec![vec![Encrypt("A::x"), Keygen("A::x")], vec![Header("A::x"), Encaps("A::x")], vec![Refresh, Encrypt("A::x")]] });
     } else {
@@ -156,20 +166,31 @@ pub struct Fixture {
     pub k_x: UserSecretKey,
     pub k_y: UserSecretKey,
     pub k_hi: UserSecretKey,
+    pub k_yall: UserSecretKey,
     pub enc0: XEnc,
     pub secret0: Vec<u8>,
     pub issued_usk: Vec<u8>,
 }
 
+pub const PX: &str = "A::x && B::u && H::lo || A::x && B::u && H::hi || A::x && B::v && H::lo || A::x && B::v && H::hi";
+pub const PY: &str = "A::y && B::u && H::lo || A::y && B::u && H::hi || A::y && B::v && H::lo || A::y && B::v && H::hi";
+
 pub fn fixture() -> Fixture {
+    // W1 plus a third dimension B{u, v}: three dimensions and policies with four targets
     let mut b = w1();
+    b.msk.access_structure.add_anarchy("B".into()).unwrap();
+    for n in ["u", "v"] {
+        b.msk.access_structure.add_attribute(cosmian_cover_crypt::QualifiedAttribute::new("B", n), cosmian_cover_crypt::EncryptionHint::Classic, None).unwrap();
+    }
+    b.mpk = b.cc.update_msk(&mut b.msk).unwrap();
     let p = |s: &str| AccessPolicy::parse(s).unwrap();
     let k_x = b.cc.generate_user_secret_key(&mut b.msk, &p("A::x")).unwrap();
     let k_y = b.cc.generate_user_secret_key(&mut b.msk, &p("A::y && H::lo")).unwrap();
     let k_hi = b.cc.generate_user_secret_key(&mut b.msk, &p("H::hi")).unwrap();
+    let k_yall = b.cc.generate_user_secret_key(&mut b.msk, &p("A::y")).unwrap();
     let issued = b.cc.generate_user_secret_key(&mut b.msk, &p("A::x && H::hi")).unwrap();
     let (s0, enc0) = b.cc.encaps(&b.mpk, &p("A::x")).unwrap();
-    Fixture { msk_bytes: ser(&b.msk), mpk: b.mpk, k_x, k_y, k_hi, enc0, secret0: s0.to_vec(), issued_usk: ser(&issued) }
+    Fixture { msk_bytes: ser(&b.msk), mpk: b.mpk, k_x, k_y, k_hi, k_yall, enc0, secret0: s0.to_vec(), issued_usk: ser(&issued) }
 }
 
 type E = Aes256Gcm;
@@ -242,7 +263,7 @@ pub struct Execution {
 /// thread if it is still enabled, else the lowest enabled id).
 pub fn execute(sc: &Scenario, fx: &Arc<Fixture>, prefix: &[usize]) -> Execution {
     let n = sc.threads.len();
-    let ctl = Arc::new(Ctl { m: Mutex::new(State { turn: None, at: vec![At::NotStarted; n], holder: None, trace: vec![], acquisitions: vec![] }), cv: Condvar::new() });
+    let ctl = Arc::new(Ctl { m: Mutex::new(State { turn: None, at: vec![At::NotStarted; n], holders: Default::default(), wants: vec![None; n], trace: vec![], acquisitions: vec![] }), cv: Condvar::new() });
     *CURRENT.lock().unwrap_or_else(|e| e.into_inner()) = Some(ctl.clone());
     let cc = Arc::new(Covercrypt::default());
     let mut handles = vec![];
@@ -293,13 +314,15 @@ pub fn execute(sc: &Scenario, fx: &Arc<Fixture>, prefix: &[usize]) -> Execution 
         let enabled: Vec<usize> = (0..n)
             .filter(|&t| match st.at[t] {
                 At::Done | At::NotStarted => false,
-                At::BeforeLock => st.holder.is_none() || st.holder == Some(t) && false,
+                // a thread requesting a mutex that is held (by another thread, or by itself:
+                // std mutexes are not re-entrant) cannot run
+                At::BeforeLock => st.wants[t].map_or(true, |a| !st.holders.contains_key(&a)),
                 _ => true,
             })
             .collect();
         if enabled.is_empty() {
-            let held = st.holder;
-            problem = Some(("C19.a".to_string(), format!("deadlock: no thread can run (points {:?}, mutex held by {held:?})", st.at)));
+            let held: Vec<usize> = st.holders.values().copied().collect();
+            problem = Some(("C19.a".to_string(), format!("deadlock: no thread can run (points {:?}, mutexes held by threads {held:?})", st.at)));
             break;
         }
         // canonical order: the running thread first if still enabled, then ascending ids
@@ -386,6 +409,17 @@ pub fn fresh_fields(outputs: &[Vec<Output>]) -> Vec<(String, Vec<u8>)> {
 }
 
 /// Sequential checks of the outputs of one complete interleaving.
+/// (authorised key, unauthorised key) for an encryption policy of the scenarios.
+fn keys_for<'a>(fx: &'a Fixture, policy: &str) -> (&'a UserSecretKey, &'a UserSecretKey) {
+    if policy.contains("A::y") && !policy.contains("A::x") {
+        (&fx.k_yall, &fx.k_x)
+    } else if policy.contains("A::x") {
+        (&fx.k_x, &fx.k_y)
+    } else {
+        (&fx.k_hi, &fx.k_y)
+    }
+}
+
 pub fn judge(fx: &Fixture, outputs: &[Vec<Output>]) -> Option<(String, String)> {
     let cc = Covercrypt::default();
     for (t, outs) in outputs.iter().enumerate() {
@@ -396,32 +430,43 @@ pub fn judge(fx: &Fixture, outputs: &[Vec<Output>]) -> Option<(String, String)> 
                 Output::HdrRt { ok: false } => return Some(("C19.b".into(), format!("thread {t}: header did not decrypt to its own secret and metadata"))),
                 Output::Enc { policy, secret, enc } => {
                     let Ok(e) = XEnc::deserialize(enc) else { return Some(("C19.b".into(), format!("thread {t}: encapsulation does not deserialise"))) };
-                    let auth = if policy.contains("H::hi") { &fx.k_hi } else { &fx.k_x };
+                    let (auth, unauth) = keys_for(fx, policy);
                     if !matches!(cc.decaps(auth, &e), Ok(Some(ref s)) if s.to_vec() == *secret) {
                         return Some(("C19.b".into(), format!("thread {t}: the authorised key does not recover the secret encaps({policy}) returned")));
                     }
-                    if !matches!(cc.decaps(&fx.k_y, &e), Ok(None)) {
+                    if !matches!(cc.decaps(unauth, &e), Ok(None)) {
                         return Some(("C19.b".into(), format!("thread {t}: an unauthorised key opens encaps({policy})")));
                     }
                 }
                 Output::Ctx { policy, enc, body } => {
                     let Ok(e) = XEnc::deserialize(enc) else { return Some(("C19.b".into(), format!("thread {t}: ciphertext encapsulation does not deserialise"))) };
-                    match PkeAc::<KL, E>::decrypt(&cc, &fx.k_x, &(e, body.clone())) {
+                    let (auth, unauth) = keys_for(fx, policy);
+                    match PkeAc::<KL, E>::decrypt(&cc, auth, &(e.clone(), body.clone())) {
                         Ok(Some(ptx)) if *ptx == PTX => {}
                         _ => return Some(("C19.b".into(), format!("thread {t}: encrypt({policy}) does not decrypt to the plaintext"))),
+                    }
+                    if !policy.contains("||") || policy.len() > 40 {
+                        if !matches!(PkeAc::<KL, E>::decrypt(&cc, unauth, &(e, body.clone())), Ok(None)) {
+                            return Some(("C19.b".into(), format!("thread {t}: an unauthorised key decrypts encrypt({policy})")));
+                        }
                     }
                 }
                 Output::Hdr { policy, secret, hdr } => {
                     let Ok(h) = EncryptedHeader::deserialize(hdr) else { return Some(("C19.b".into(), format!("thread {t}: header does not deserialise"))) };
-                    match h.decrypt(&cc, &fx.k_x, Some(b"ad")) {
+                    let (auth, unauth) = keys_for(fx, policy);
+                    match h.decrypt(&cc, auth, Some(b"ad")) {
                         Ok(Some(c)) if c.secret.to_vec() == *secret && c.metadata.as_deref() == Some(&b"metadata"[..]) => {}
                         _ => return Some(("C19.b".into(), format!("thread {t}: header({policy}) does not decrypt to its secret and metadata"))),
+                    }
+                    if !matches!(h.decrypt(&cc, unauth, Some(b"ad")), Ok(None)) {
+                        return Some(("C19.b".into(), format!("thread {t}: an unauthorised key opens header({policy})")));
                     }
                 }
                 Output::Key { policy, usk } => {
                     let Ok(u) = UserSecretKey::deserialize(usk) else { return Some(("C19.b".into(), format!("thread {t}: key does not deserialise"))) };
-                    if !matches!(cc.decaps(&u, &fx.enc0), Ok(Some(ref s)) if s.to_vec() == fx.secret0) {
-                        return Some(("C19.b".into(), format!("thread {t}: key generated for {policy} does not open an encapsulation for it")));
+                    let opens = matches!(cc.decaps(&u, &fx.enc0), Ok(Some(ref s)) if s.to_vec() == fx.secret0);
+                    if opens != policy.contains("A::x") {
+                        return Some(("C19.b".into(), format!("thread {t}: key generated for {policy} {} the reference encapsulation for A::x", if opens { "opens" } else { "does not open" })));
                     }
                 }
                 Output::Refreshed { usk } => {
@@ -492,8 +537,169 @@ pub struct SchedStats {
     pub capped: bool,
 }
 
-fn preemptions(ex: &Execution, upto: usize) -> usize {
-    (0..upto).filter(|&i| ex.points[i].current_enabled && ex.choices[i] != 0).count()
+/// DFS over schedules with at most `bound` preemptions (None = unbounded).
+/// What the explorer needs to know about one execution.
+#[derive(Clone, Debug)]
+pub struct Summary {
+    pub choices: Vec<usize>,
+    /// per choice point: (number of enabled threads, was the running thread still enabled)
+    pub points: Vec<(usize, bool)>,
+    pub section_order: Vec<usize>,
+    pub steps: Vec<usize>,
+    pub verdict: Option<(String, String)>,
+}
+
+fn summarize(fx: &Fixture, ex: &Execution) -> Summary {
+    Summary {
+        choices: ex.choices.clone(),
+        points: ex.points.iter().map(|p| (p.enabled.len(), p.current_enabled)).collect(),
+        section_order: ex.section_order.clone(),
+        // (the initial "thread started" announcements arrive in OS order; everything after them is
+        // decided by the schedule)
+        steps: ex.trace.iter().filter(|t| t.1 != At::Start).map(|t| t.0).collect(),
+        verdict: ex.problem.clone().or_else(|| judge(fx, &ex.outputs)),
+    }
+}
+
+/// Runs one schedule in a forked child: every execution starts from the same process state
+/// (code under test may keep state in process-wide statics), and a deadlocked or hung execution
+/// is simply killed. The explorer process is single-threaded when it forks.
+pub fn run_isolated(sc: &Scenario, fx: &Arc<Fixture>, prefix: &[usize]) -> Summary {
+    let mut fds = [0i32; 2];
+    if unsafe { libc::pipe(fds.as_mut_ptr()) } != 0 {
+        machinery("pipe failed");
+    }
+    let pid = unsafe { libc::fork() };
+    if pid < 0 {
+        machinery("fork failed");
+    }
+    if pid == 0 {
+        // child
+        unsafe { libc::close(fds[0]) };
+        let ex = execute(sc, fx, prefix);
+        let su = summarize(fx, &ex);
+        let v = json!({"choices": su.choices, "points": su.points, "order": su.section_order, "steps": su.steps, "verdict": su.verdict});
+        let text = v.to_string();
+        let bytes = text.as_bytes();
+        let mut off = 0;
+        while off < bytes.len() {
+            let n = unsafe { libc::write(fds[1], bytes[off..].as_ptr() as *const libc::c_void, bytes.len() - off) };
+            if n <= 0 {
+                break;
+            }
+            off += n as usize;
+        }
+        unsafe { libc::_exit(0) };
+    }
+    unsafe { libc::close(fds[1]) };
+    let mut buf = vec![];
+    let deadline = std::time::Instant::now() + Duration::from_secs(40);
+    let mut timed_out = false;
+    loop {
+        let left = deadline.saturating_duration_since(std::time::Instant::now()).as_millis() as i32;
+        if left <= 0 {
+            timed_out = true;
+            break;
+        }
+        let mut pfd = libc::pollfd { fd: fds[0], events: libc::POLLIN, revents: 0 };
+        let r = unsafe { libc::poll(&mut pfd, 1, left) };
+        if r == 0 {
+            timed_out = true;
+            break;
+        }
+        if r < 0 {
+            continue;
+        }
+        let mut chunk = [0u8; 65536];
+        let n = unsafe { libc::read(fds[0], chunk.as_mut_ptr() as *mut libc::c_void, chunk.len()) };
+        if n <= 0 {
+            break;
+        }
+        buf.extend_from_slice(&chunk[..n as usize]);
+    }
+    unsafe {
+        libc::close(fds[0]);
+        libc::kill(pid, libc::SIGKILL);
+        let mut st = 0;
+        libc::waitpid(pid, &mut st, 0);
+    }
+    if timed_out {
+        return Summary { choices: prefix.to_vec(), points: vec![], section_order: vec![], steps: vec![], verdict: Some(("C19.a".into(), "the execution did not finish within 40 s (hang)".into())) };
+    }
+    let v: serde_json::Value = serde_json::from_slice(&buf).unwrap_or_else(|_| machinery("an isolated execution died without a result (crash of the harness child)"));
+    let us = |x: &serde_json::Value| x.as_array().map(|a| a.iter().filter_map(|y| y.as_u64().map(|n| n as usize)).collect::<Vec<_>>()).unwrap_or_default();
+    Summary {
+        choices: us(&v["choices"]),
+        points: v["points"].as_array().map(|a| a.iter().map(|p| (p[0].as_u64().unwrap_or(0) as usize, p[1].as_bool().unwrap_or(false))).collect()).unwrap_or_default(),
+        section_order: us(&v["order"]),
+        steps: us(&v["steps"]),
+        verdict: v["verdict"].as_array().map(|a| (a[0].as_str().unwrap_or("").to_string(), a[1].as_str().unwrap_or("").to_string())),
+    }
+}
+
+/// One free-running execution (real threads, no scheduler) in a forked child with a watchdog.
+fn free_isolated(sc: &Scenario, fx: &Arc<Fixture>) -> Option<(String, String)> {
+    let mut fds = [0i32; 2];
+    if unsafe { libc::pipe(fds.as_mut_ptr()) } != 0 {
+        machinery("pipe failed");
+    }
+    let pid = unsafe { libc::fork() };
+    if pid < 0 {
+        machinery("fork failed");
+    }
+    if pid == 0 {
+        unsafe { libc::close(fds[0]) };
+        let cc = Arc::new(Covercrypt::default());
+        let hs: Vec<_> = sc
+            .threads
+            .iter()
+            .map(|calls| {
+                let (cc, fx, calls) = (cc.clone(), fx.clone(), calls.clone());
+                std::thread::spawn(move || {
+                    let mut msk = MasterSecretKey::deserialize(&fx.msk_bytes).unwrap();
+                    let mut usk = UserSecretKey::deserialize(&fx.issued_usk).unwrap();
+                    calls.iter().map(|c| catch_unwind(AssertUnwindSafe(|| run_call(&cc, &fx, &mut msk, &mut usk, c))).unwrap_or_else(|_| Output::Failed(format!("{c:?} panicked")))).collect::<Vec<_>>()
+                })
+            })
+            .collect();
+        let outs: Vec<Vec<Output>> = hs.into_iter().map(|h| h.join().unwrap_or_else(|_| vec![Output::Failed("thread panicked".into())])).collect();
+        let text = match judge(fx, &outs) {
+            Some((c, m)) => format!("{c}\n{m}"),
+            None => "ok".to_string(),
+        };
+        unsafe {
+            libc::write(fds[1], text.as_ptr() as *const libc::c_void, text.len());
+            libc::_exit(0)
+        };
+    }
+    unsafe { libc::close(fds[1]) };
+    let mut pfd = libc::pollfd { fd: fds[0], events: libc::POLLIN, revents: 0 };
+    let r = unsafe { libc::poll(&mut pfd, 1, 30_000) };
+    let mut buf = [0u8; 4096];
+    let n = if r > 0 { unsafe { libc::read(fds[0], buf.as_mut_ptr() as *mut libc::c_void, buf.len()) } } else { -1 };
+    unsafe {
+        libc::close(fds[0]);
+        libc::kill(pid, libc::SIGKILL);
+        let mut st = 0;
+        libc::waitpid(pid, &mut st, 0);
+    }
+    if r == 0 {
+        return Some(("C19.a".into(), "a free-running execution did not finish within 30 s (deadlock or hang)".into()));
+    }
+    if n <= 0 {
+        machinery("a free-running execution died without a result");
+    }
+    let text = String::from_utf8_lossy(&buf[..n as usize]).to_string();
+    if text == "ok" {
+        None
+    } else {
+        let (c, m) = text.split_once('\n').unwrap_or(("C19.b", &text));
+        Some((c.to_string(), m.to_string()))
+    }
+}
+
+fn preemptions_s(ex: &Summary, upto: usize) -> usize {
+    (0..upto).filter(|&i| ex.points[i].1 && ex.choices[i] != 0).count()
 }
 
 /// DFS over schedules with at most `bound` preemptions (None = unbounded).
@@ -504,31 +710,23 @@ fn explore(sc: &Scenario, fx: &Arc<Fixture>, bound: Option<usize>, cap: u64, t0:
         if n >= cap || t0.elapsed().as_secs_f64() > cap_secs {
             return (n, false);
         }
-        let ex = execute(sc, fx, &prefix);
+        let ex = run_isolated(sc, fx, &prefix);
         n += 1;
         *max_points = (*max_points).max(ex.points.len());
         orders.insert(ex.section_order.clone());
-        let verdict = ex.problem.clone().or_else(|| judge(fx, &ex.outputs));
-        if let Some((c, m)) = verdict {
+        if let Some((c, m)) = ex.verdict.clone() {
             // replay twice: must fail identically, at identical scheduling points
-            let again = execute(sc, fx, &ex.choices);
-            let v2 = again.problem.clone().or_else(|| judge(fx, &again.outputs));
-            // (the initial "thread started" announcements arrive in OS order; everything after
-            // them is decided by the schedule)
-            let steps = |e: &Execution| e.trace.iter().filter(|t| t.1 != At::Start).map(|t| t.0).collect::<Vec<_>>();
-            if again.choices != ex.choices || again.section_order != ex.section_order || steps(&again) != steps(&ex) {
-                machinery("a replayed schedule visited different scheduling points");
-            }
-            if v2.as_ref().map(|v| &v.0) != Some(&c) {
-                machinery(&format!("a failing schedule did not fail again on replay: {c} {m}"));
+            let again = run_isolated(sc, fx, &ex.choices);
+            if again.verdict.as_ref().map(|v| &v.0) != Some(&c) || (c != "C19.a" && (again.choices != ex.choices || again.section_order != ex.section_order || again.steps != ex.steps)) {
+                machinery(&format!("a failing schedule did not fail identically on replay: {c} {m}"));
             }
             *bad = Some((c, m, ex.choices.clone()));
             return (n, false);
         }
         for i in prefix.len()..ex.points.len() {
-            let before = preemptions(&ex, i);
-            for alt in 1..ex.points[i].enabled.len() {
-                let cost = before + usize::from(ex.points[i].current_enabled);
+            let before = preemptions_s(&ex, i);
+            for alt in 1..ex.points[i].0 {
+                let cost = before + usize::from(ex.points[i].1);
                 if bound.is_some_and(|b| cost > b) {
                     continue;
                 }
@@ -577,22 +775,8 @@ pub fn scenario_main(idx: usize, tier: &str, budget: f64) -> i32 {
     let mut free = 0u64;
     let mut free_bad: Option<(String, String)> = None;
     for _ in 0..iters {
-        let cc = Arc::new(Covercrypt::default());
-        let hs: Vec<_> = sc
-            .threads
-            .iter()
-            .map(|calls| {
-                let (cc, fx, calls) = (cc.clone(), fx.clone(), calls.clone());
-                std::thread::spawn(move || {
-                    let mut msk = MasterSecretKey::deserialize(&fx.msk_bytes).unwrap();
-                    let mut usk = UserSecretKey::deserialize(&fx.issued_usk).unwrap();
-                    calls.iter().map(|c| catch_unwind(AssertUnwindSafe(|| run_call(&cc, &fx, &mut msk, &mut usk, c))).unwrap_or_else(|_| Output::Failed(format!("{c:?} panicked")))).collect::<Vec<_>>()
-                })
-            })
-            .collect();
-        let outs: Vec<Vec<Output>> = hs.into_iter().map(|h| h.join().unwrap_or_else(|_| vec![Output::Failed("thread panicked".into())])).collect();
         free += 1;
-        if let Some(v) = judge(&fx, &outs) {
+        if let Some(v) = free_isolated(sc, &fx) {
             free_bad = Some(v);
             break;
         }
@@ -677,7 +861,7 @@ pub fn replay(scenario: &str, schedule: &[usize]) -> Option<(String, String)> {
     let scs = scenarios(true);
     let scq = scenarios(false);
     let sc = scs.iter().chain(scq.iter()).find(|s| s.name == scenario).unwrap_or_else(|| machinery("unknown scenario"));
-    let ex = execute(sc, &fx, schedule);
+    let ex = run_isolated(sc, &fx, schedule);
     println!("section order {:?}", ex.section_order);
-    ex.problem.clone().or_else(|| judge(&fx, &ex.outputs))
+    ex.verdict
 }
